@@ -19,6 +19,7 @@ import (
 	"strings"
 	"sync"
 	"sync/atomic"
+	"syscall"
 	"time"
 )
 
@@ -161,7 +162,17 @@ func hangInCodeUnderTest(stacks string) (bool, string) {
 	return false, ""
 }
 
+// processCPU is the processor time (user + system) this process has used so far.
+//
 //go:norace
+func processCPU() time.Duration {
+	var ru syscall.Rusage
+	if err := syscall.Getrusage(syscall.RUSAGE_SELF, &ru); err != nil {
+		return 0
+	}
+	return time.Duration(ru.Utime.Nano() + ru.Stime.Nano())
+}
+
 func startWatchdog() {
 	wdOnce.Do(func() {
 		if v := os.Getenv("VERIF_WATCHDOG_S"); v != "" {
@@ -170,6 +181,8 @@ func startWatchdog() {
 		go func() {
 			var last uint64
 			idle := 0
+			var cpuAtIdleStart time.Duration
+			extensions := 0
 			for {
 				time.Sleep(time.Second)
 				if !inRun.Load() {
@@ -178,12 +191,23 @@ func startWatchdog() {
 				}
 				p := progress.Load()
 				if p == last {
+					if idle == 0 {
+						cpuAtIdleStart = processCPU()
+					}
 					idle++
 				} else {
 					idle = 0
+					extensions = 0
 					last = p
 				}
 				if idle >= WatchdogSeconds {
+					// a task that spins burns processor time; a process that got next to none in all that time is
+					// being starved by the machine, not stuck: give it more wall-clock time (bounded)
+					if used := processCPU() - cpuAtIdleStart; used < time.Duration(WatchdogSeconds)*time.Second/4 && extensions < 20 {
+						extensions++
+						idle = WatchdogSeconds / 2
+						continue
+					}
 					buf := make([]byte, 1<<20)
 					n := runtime.Stack(buf, true)
 					if under, fn := hangInCodeUnderTest(string(buf[:n])); under {
